@@ -1550,6 +1550,8 @@ def run(rep: vlib.Reporter, tier: str, seed: int) -> None:
     for smp in (cases[0], ic[3], {k: fc[0][k] for k in ("gi", "name", "group", "context")}, jc[3],
                 {k: tc[0][k] for k in ("fw", "name", "O", "J")}, bn[0]):
         rep.sample(smp)
+    from harness import srctie      # source-text tie (Props/SrcTie.v): definitions regenerated from the source text = the models
+    found = (not srctie.check(rep)) or found
     if not pr.ok and not found:
         rep.finding("proof-broken", "Props/C16.v no longer checks",
                     {"failed_files": pr.failed_files, "forbidden": pr.forbidden, "log_tail": pr.log[-3000:]}, found_input=False)
@@ -1581,6 +1583,9 @@ def replay(path: str) -> int:
     r = json.load(open(path))["replay"]
     kind = r.get("kind")
     print(json.dumps({k: v for k, v in r.items() if k not in ("res",)}, indent=1)[:3000])
+    if kind == "srctie":
+        from harness import srctie
+        srctie.replay(r)
     if kind == "parse":
         print("now:", obs_parse(r["name"], r["suf"]), "recorded:", r.get("obs"))
     elif kind == "infeat":
